@@ -125,8 +125,8 @@ def run(ctx, R):
     R.rule("C19.R1", "every effective command-line option can be given in the configuration file", floor=20, confirmed=27)
     R.rule("C19.R2", "file wins, absence keeps the command-line value: key = attribute, default = the current value", floor=20, confirmed=29)
     R.rule("C19.R3", "a faulty configuration file is reported, not fatal", floor=3, confirmed=5)
-    R.rule("C19.R4", "state derived from options is re-derived after the file is read; consumers run after the load", floor=3, confirmed=6)
-    R.rule("C19.R5", "same value type on both channels (set-valued options)", floor=3, confirmed=6)
+    R.rule("C19.R4", "state derived from options is re-derived after the file is read; consumers run after the load", floor=2, confirmed=6)
+    R.rule("C19.R5", "same value type on both channels (set-valued options)", floor=1, confirmed=6)
     opts = option_table(ctx)
     loads = loader_statements(ctx)
     reads = attr_reads(ctx)
@@ -152,7 +152,16 @@ def run(ctx, R):
             continue
         Ls = by_key.get(dest, [])
         if not Ls:
-            R.violation("C19.R1", where, k, l, f"option --{dest} is read by the server but no loader takes it from the configuration file")
+            # named as a literal somewhere below the configuration loader (a wrapper the table reader does not see through)?
+            named = False
+            for q_ in ctx.r.reachable({cfgf.qual}, by_name=False):
+                g_ = ctx.m.funcs.get(q_)
+                if g_ is not None and any(isinstance(x, ast.Constant) and x.value == dest for x in ast.walk(g_.node)):
+                    named = True
+            if named:
+                R.undecided("C19.R1", where, k, l, f"--{dest} is named inside the configuration loader but not read with dict.get(key, default) - loader shape not recognised")
+            else:
+                R.violation("C19.R1", where, k, l, f"option --{dest} is read by the server but no loader takes it from the configuration file")
             continue
         R.ok("C19.R1", where, k, l, "loaded in " + Ls[0]["func"].short)
     # keys consulted that are no option at all (typos)
@@ -200,6 +209,8 @@ def run(ctx, R):
                 R.ok("C19.R5", f.short, k, l, "set-valued on both channels")
             else:
                 R.violation("C19.R5", f.short, k, l, f"--{L['key']} is a set on the command line but stored as given (a list) from the file")
+    if not any(i.rule == "C19.R5" for i in R.insts):
+        R.undecided("C19.R5", cfgf.short, "set-valued options", loc(cfgf, cfgf.node), "no loader of a set-valued option stores its value in a recognised form")
     # the dictionary the loaders read is the parsed file itself: a re-binding that drops entries
     # by their *value* (falsy values, None, ...) makes the file lose against the command line
     # for exactly those values
